@@ -75,7 +75,7 @@ func ruleMergeIntroducerRemap(r *Report, in introducers, rule string) {
 			continue
 		}
 		nAdd++
-		facts := g.GuardsOf(c)
+		facts := g.RawGuardsOf(c) // a universal check: only the conditions as written count
 		bad := ""
 		for _, f := range facts {
 			at := map[string]bool{}
@@ -102,9 +102,9 @@ func ruleMergeIntroducerRemap(r *Report, in introducers, rule string) {
 			continue
 		}
 		a0 := map[string]bool{}
-		d.atoms(c.Args[0], a0)
+		d.atoms(resolveCopies(info, fi.Decl.Body, c.Args[0]), a0) // operands may be held in single-definition locals
 		a1 := map[string]bool{}
-		d.atoms(c.Args[1], a1)
+		d.atoms(resolveCopies(info, fi.Decl.Body, c.Args[1]), a1)
 		ok := !a0["fld:mergedSegmentHistory.oldSegment"] && a1["fld:mergedSegmentHistory.oldSegment"] && a0["fld:SegmentSnapshot.deleted"]
 		r.Ob(rule, fi.Name+"/deletedSince=current-minus-known", c.Pos(), ok, "deletedSince = root's current .deleted AND NOT the merge-time .deleted (operand order)")
 	}
@@ -251,6 +251,7 @@ func ruleOffsetsAlignment(r *Report, rule string, fns []*FuncInfo) {
 		if n == 0 {
 			// element-wise copy form (persist introducer): offsets[i] = root.offsets[i]
 			okCopy := false
+			var copies []ast.Node
 			ast.Inspect(fi.Decl.Body, func(nd ast.Node) bool {
 				as, ok := nd.(*ast.AssignStmt)
 				if !ok || len(as.Lhs) != 1 || len(as.Rhs) != 1 {
@@ -259,10 +260,36 @@ func ruleOffsetsAlignment(r *Report, rule string, fns []*FuncInfo) {
 				li, ok1 := ast.Unparen(as.Lhs[0]).(*ast.IndexExpr)
 				ri, ok2 := ast.Unparen(as.Rhs[0]).(*ast.IndexExpr)
 				if ok1 && ok2 && isField(info, li.X, "IndexSnapshot", "offsets") && isField(info, ri.X, "IndexSnapshot", "offsets") && exprStr(li.Index) == exprStr(ri.Index) {
-					okCopy = len(g.GuardsOf(as)) == 0
+					copies = append(copies, as)
 				}
 				return true
 			})
+			if len(copies) > 0 {
+				// no iteration of the enclosing loop can end (or leave the function) without one of the copies
+				var body *ast.BlockStmt
+				for _, anc := range enclosing(fi.Decl.Body, copies[0]) {
+					switch l := anc.(type) {
+					case *ast.ForStmt:
+						body = l.Body
+					case *ast.RangeStmt:
+						body = l.Body
+					}
+				}
+				if body != nil {
+					var start ast.Node
+					ast.Inspect(body, func(y ast.Node) bool {
+						if start != nil || y == nil {
+							return false
+						}
+						if _, ok := g.Locate(y); ok && y != ast.Node(body) {
+							start = y
+							return false
+						}
+						return true
+					})
+					okCopy = start != nil && !g.exitAvoidingAll(start, copies)
+				}
+			}
 			r.Ob(rule, fi.Name+"/offsets-copied-elementwise", fi.Decl.Pos(), okCopy, "a layout-preserving introducer copies offsets[i] = root.offsets[i] unconditionally for every i")
 		}
 	}
